@@ -309,8 +309,8 @@ func vC31_activation() {
 }
 
 // The identity's grain is active. One caller deactivates it explicitly (TellGrain of a PoisonPill, real handlePoisonPill and
-// deactivate), another sends a message; one worker runs the turns. A message whose send starts after OnDeactivate completed
-// must activate a fresh instance that receives it; the new activation never overlaps the old one.
+// deactivate), another sends a message; one worker runs the turns. A message whose send starts after the deactivation
+// completed (OnDeactivate returned, process unregistered and flagged inactive) must activate a fresh instance that receives it; the new activation never overlaps the old one.
 func vC31_resend() {
 	sys := vC31_system()
 	id := &GrainIdentity{kind: "k", name: "g0", cachedStr: "k/g0"}
@@ -321,7 +321,7 @@ func vC31_resend() {
 	sentAfter := false
 	vGo("deactivator", func() { perr = sys.TellGrain(context.Background(), id, new(PoisonPill)) })
 	vGo("sender", func() {
-		sentAfter = vC31_deaEnd[2] == 1
+		sentAfter = !old.isActive() && vC31_deaEnd[2] == 1 // the deactivation is complete: OnDeactivate returned and the process reads inactive
 		terr = sys.TellGrain(context.Background(), id, 1)
 	})
 	vGo("w", func() { vC31_workerQ(sys.dispatcher, 2) })
